@@ -37,6 +37,7 @@ T0 = _dt.datetime(2020, 1, 1, tzinfo=_dt.timezone.utc)
 BATTERY = [0, 1, -1, 1.5, 0.0, True, False, b"", b"x", None, "", "x", [], [1], {}, {"a": 1}, (1,), T0, float("nan")]
 SLOTS = ("time", "measurement", "tag_key", "tag_value", "field_key", "field_value")
 ENTRIES = ("insert_measurement_arg", "insert_multiple_measurement_arg", "handle_name_insert", "ctor+nonevalue", "setter+nonevalue", "update_static+nonevalue", "update_callable+nonevalue", "ctor", "setter", "update_static", "update_all_static", "update_callable", "update_all_callable", "handle_update_static", "handle_update_callable", "insert_nonpoint", "insert_multiple_nonpoint", "ctor+other", "update_static+other", "update_all_static+other", "handle_update_static+other",
+           "ctor+second", "setter+second", "update_static+second", "update_all_static+second", "handle_update_static+second", "update_callable+second",
            "ctor+pairs", "setter+pairs", "update_static+pairs", "update_all_static+pairs", "handle_update_static+pairs", "update_callable+pairs")
 
 
@@ -128,6 +129,18 @@ def attempt(db, entry, slot, v):
             return ("skip", "only key slots")
         entry = entry[: -len("+nonevalue")]
         kw = {"tags": {v: None, "ok": "v"}} if slot == "tag_key" else {"fields": {"ok": 1.0, v: None}}
+    if entry.endswith("+second"):
+        # the offending key / value is NOT the first entry of its mapping: a valid entry precedes it
+        if slot not in ("tag_key", "tag_value", "field_key", "field_value"):
+            return ("skip", "only tag/field slots")
+        entry = entry[: -len("+second")]
+        (name, d), = kw.items()
+        first = {"ok1": "v", "ok2": None} if name == "tags" else {"ok1": None, "ok2": 1.5}
+        if any(k in first for k in d):
+            return ("skip", "key collides with the valid entries")
+        merged = dict(first)
+        merged.update(d)
+        kw = {name: merged}
     if entry.endswith("+pairs"):
         # the tag / field set supplied as a list of (key, value) pairs instead of a mapping: dict.update() would
         # take it, so the wrongly-typed key or value inside must still be rejected
